@@ -535,11 +535,9 @@ func poseidonDrv(raw json.RawMessage, resp *drv.Response) error {
 		// ... and if the five chunks themselves are prover-supplied: the hash h + p*2^(56 i) presented with the chunks of h, chunk i given
 		// as value + p (the same element for the transcript, which reduces what it absorbs) must not be accepted
 		for i := 0; i < 5; i++ {
-			h := drv.RandBelow(rng, new(big.Int).Sub(bigR, pow2(252)))
+			h := drv.RandBelow(rng, bigR)
 			h2 := new(big.Int).Add(h, new(big.Int).Lsh(bigP, uint(56*i)))
-			if h2.Cmp(bigR) >= 0 {
-				continue
-			}
+			h2.Mod(h2, bigR) // the recomposition is an equation in the scalar field
 			applied := false
 			cfg := &engine.Config{Mode: modeOf(req.Mode)}
 			cfg.Strategy = func(c *engine.HintCall) []*big.Int {
